@@ -2953,7 +2953,15 @@ impl Typer {
                 }
 
                 if !field_map.is_empty() {
-                    let extra = field_map.keys().cloned().collect::<Vec<_>>().join(", ");
+                    // in the order written (the map's iteration order differs between runs)
+                    let mut extra: Vec<String> = Vec::new();
+                    for (fname, _) in fields.iter() {
+                        let fname = fname.to_ident_name();
+                        if field_map.contains_key(&fname) && !extra.contains(&fname) {
+                            extra.push(fname);
+                        }
+                    }
+                    let extra = extra.join(", ");
                     super::util::push_error(
                         diagnostics,
                         format!(
